@@ -106,6 +106,13 @@ Ops(S) ==
      [] Alphabet = "gc" -> { [op |-> "Update", k |-> k, v |-> v] : k \in Keys, v \in Vals } \cup { [op |-> "Delete", k |-> k] : k \in Keys }
                            \cup { [op |-> "CommitRef"], [op |-> "Cap0"], [op |-> "CapHalf"] }
                            \cup { [op |-> n, r |-> r] : n \in {"Dereference", "DbCommit", "Reopen"}, r \in DOMAIN S.roots }
+     \* "gcx": bounded-exhaustive garbage-collection schedules -- only updates/deletes that change the content, commit+reference
+     \* only of a content that differs from the last committed one, dereference of any referenced root; nothing is flushed,
+     \* so every committed node lives in the memory layer only
+     [] Alphabet = "gcx" -> { [op |-> "Update", k |-> k, v |-> v] : k \in { x \in Keys : TRUE }, v \in { y \in Vals : \E x \in Keys : S.kv[x] # y } }
+                            \cup { [op |-> "Delete", k |-> k] : k \in { x \in Keys : S.kv[x] # 0 } }
+                            \cup (IF S.kv # S.base THEN { [op |-> "CommitRef"] } ELSE {})
+                            \cup { [op |-> "Dereference", r |-> r] : r \in DOMAIN S.roots }
      [] OTHER -> { [op |-> "Update", k |-> k, v |-> v] : k \in Keys, v \in Vals \cup {0} }
                  \cup { [op |-> n, k |-> k] : n \in {"Delete", "Get", "Prove"}, k \in Keys }
                  \cup { [op |-> n] : n \in {"Commit", "Cap0", "CapHalf", "Hash", "Iterate"} } \cup RootOps(S)
@@ -121,7 +128,9 @@ Next == \/ /\ Len(hist) < MaxOps
                 IF o.op = "CommitRef"
                 THEN /\ Len(s.roots) < MaxRoots /\ s.kv # Empty /\ RefCount(s, s.kv) < MaxRefs
                      /\ s' = Apply(Apply(s, CommitRefOps(s)[1]), CommitRefOps(s)[2]) /\ hist' = hist \o CommitRefOps(s)
-                ELSE En(s, o) /\ s' = Apply(s, o) /\ hist' = Append(hist, o)
+                ELSE /\ En(s, o)
+                     /\ (Alphabet = "gcx" /\ o.op = "Update") => s.kv[o.k] # o.v
+                     /\ s' = Apply(s, o) /\ hist' = Append(hist, o)
         \/ /\ Len(hist) >= MaxOps /\ Len(hist) < MaxOps + TailLen
            /\ s' = s /\ hist' = Append(hist, [op |-> "Prove", k |-> NthKey(Len(hist) - MaxOps + 1)])
 Spec == Init /\ [][Next]_vars
@@ -142,6 +151,8 @@ ReopenYieldsSnapshot == [][ Last.op \in {"Reopen", "Restart"} => s'.kv = s.roots
 CommitSnapshots == [][ Last.op = "Commit" => (s'.roots[Len(s'.roots)] = s.kv /\ Readable(s', s.kv)) ]_vars
 
 \* ---------------------------------------------------------------- generation
-Leaf == (GenMode = "leaf" /\ Len(hist) >= MaxOps + TailLen) => PrintT("@@J " \o ToJson([kind |-> "B", h |-> hist]))
+\* the "gcx" alphabet only prints schedules that dereference a root while at least two commits are behind
+GcxWorthy == \E i \in DOMAIN hist : hist[i].op = "Dereference" /\ Cardinality({ j \in 1..i : hist[j].op = "Commit" }) >= 2
+Leaf == (GenMode = "leaf" /\ Len(hist) >= MaxOps + TailLen /\ (Alphabet = "gcx" => GcxWorthy)) => PrintT("@@J " \o ToJson([kind |-> "B", h |-> hist]))
 View == s
 =============================================================================
